@@ -11,7 +11,10 @@ case kinds
                                          (edit: pop-keyword / append / leaves / clear-top / clear-deep / reverse / all); parsing
                                          the same texts again gives the same token trees, made of new objects; no result contains
                                          one list object twice.  via = "file": the texts are written, one after the other, to the
-                                         SAME path and read with parse_file (a result must not be remembered under the file name)
+                                         SAME path and read with parse_file (a result must not be remembered under the file name);
+                                         via = "path": every distinct text has its OWN file, written once and left untouched, and is
+                                         read by name each time (an unchanged file parsed again is still a new parse: nothing handed
+                                         to a caller may be kept and handed out again, whole or in part)
 The dot-bracket of a strand-notation complex is compared up to blanks."""
 import copy, inspect, json, os, subprocess, sys, tempfile, warnings
 warnings.simplefilter("ignore")
@@ -88,9 +91,13 @@ def main(dialect):
             return f"<{type(e).__name__}>"
 
     def reuse_snippet(c):
-        name = "parse_%s_%s" % (dialect, "file" if c.get("via") == "file" else "string")
+        name = "parse_%s_%s" % (dialect, "file" if c.get("via") in ("file", "path") else "string")
         body = ("def parse(t):\n    open('/tmp/c.txt', 'wb').write(t.encode('utf-8'))\n    return p('/tmp/c.txt')\n"
-                if c.get("via") == "file" else "parse = p\n")
+                if c.get("via") == "file" else
+                "import os, tempfile\npaths = {}\ndef parse(t):\n    if t not in paths:      # written once, never touched again\n"
+                "        fd, paths[t] = tempfile.mkstemp(suffix='.txt'); os.write(fd, t.encode('utf-8')); os.close(fd)\n"
+                "    return p(paths[t])\n"
+                if c.get("via") == "path" else "parse = p\n")
         return ("import copy\nfrom dsdobjects.dsdparser import %s as p\n" % name + inspect.getsource(lists_of) + inspect.getsource(scribble)
                 + body + "texts, edit = %r, %r\n" % (c["texts"], c.get("edit", "all")) +
                 "def run(t):\n    try: return parse(t)\n    except Exception as e: return type(e).__name__\n"
@@ -158,12 +165,18 @@ def main(dialect):
                               "what": "the result depends on earlier parser calls in the process"})
         elif k == "reuse":
             texts, edit, via = c["texts"], c.get("edit", "all"), c.get("via", "string")
-            path = None
+            path, own = None, {}
             if via == "file":
                 fd, path = tempfile.mkstemp(prefix="c13_", suffix=".pil")
                 os.close(fd)
 
             def parse(t):
+                if via == "path":
+                    if t not in own:
+                        fd, own[t] = tempfile.mkstemp(prefix="c13_", suffix=".pil")
+                        with os.fdopen(fd, "wb") as f:
+                            f.write(t.encode("utf-8"))
+                    return call_raw(parse_file, own[t])
                 if path is None:
                     return call_raw(parse_string, t)
                 with open(path, "wb") as f:
@@ -202,4 +215,6 @@ def main(dialect):
             finally:
                 if path is not None:
                     os.unlink(path)
+                for q in own.values():
+                    os.unlink(q)
     json.dump({"failures": fails, "checked": checked}, sys.stdout)
